@@ -208,6 +208,28 @@ void harness_caller_leaves(void)
 	WITNESS_END();
 }
 
+/* ================================================================== the owner removed the addressed element (its last one) while the request is in
+ * flight; then the caller disconnects: its request must still be purged from the owner's table */
+void harness_caller_leaves_after_element_removed(void)
+{
+	setup();
+	int v = (int)nd_range(0, 999);
+	int ka = do_set(&A, 7, v);
+	__CPROVER_assume(ka >= 0);
+	scn_build_begin();
+	cJSON *rem = mkreq("remove", 2, path_params("s", NO_VALUE));
+	scn_build_end();
+	__CPROVER_assume(dispatch(&O, rem) == 0);
+	CHECK(list_empty(&O.element_list), "C04.owner_remove_takes_effect");
+	free_peer_resources(&A);
+	dead_peer = &A;
+	CHECK(timers_alive() == 0, "C07.request_timers_destroyed_when_caller_leaves");
+	int r = reply(&O, LOG[ka].id_str, 0, 3);         /* late reply: nothing may be written to the released caller */
+	CHECK(r >= 0, "C05.reply_for_departed_caller_is_harmless");
+	free_peer_resources(&O);
+	WITNESS_END();
+}
+
 /* ================================================================== faults while routing: exactly one final answer */
 void harness_route_faults(void)
 {
